@@ -4,6 +4,7 @@ package main
 // red-black tree environment (c02.env).
 
 import (
+	"strconv"
 	"fmt"
 	"math/rand"
 	"sort"
@@ -187,7 +188,7 @@ func genC02Unify(r *rand.Rand, n int, tier string) []string {
 		if r.Intn(2) == 0 {
 			x, y = y, x
 		}
-		mode := pick(r, []string{"u", "u", "r", "o", "o", "f", "h", "h", "m"})
+		mode := pick(r, []string{"u", "u", "r", "o", "o", "f", "h", "h", "m", "k"})
 		if mode == "m" {
 			// a SEQUENCE of unifications X1 = Y1, ..., Xn = Yn over a small pool of variables, so that
 			// variables already aliased are unified again, in both directions
@@ -253,6 +254,11 @@ func genC02Unify(r *rand.Rand, n int, tier string) []string {
 		rx := rec()
 		if strHead {
 			rx = pick(r, []string{"s", "c", "sc", "cs"})
+		}
+		if mode == "k" {
+			// x and y are unified THROUGH a chain of n variable-to-variable bindings (C0 = C1, ..., then
+			// Cn = x, then C0 = y): Resolve has to follow n links; the recipe slot carries n
+			rx = strconv.Itoa(pick(r, []int{3, 60, 600, 1100, 1100, 2600}))
 		}
 		out = append(out, fmt.Sprintf("%s | %s | %s | %s | %s", mode, rx, x, rec(), y))
 	}
@@ -521,6 +527,17 @@ func runC02Unify(payload string) string {
 		goal = compound(",", compound("unify_with_occurs_check", x, y), compound(";", compound("->", compound("==", x, y), compound("=", ident, atom("true"))), compound("=", ident, atom("false"))))
 	case "f":
 		goal = compound(";", compound("->", compound("=", x, y), compound("=", res, atom("yes"))), compound("=", res, atom("no")))
+	case "k":
+		n, _ := strconv.Atoi(recX)
+		chain := make([]engine.Term, n+1)
+		for k := range chain {
+			chain[k] = engine.NewVariable()
+		}
+		goal = compound(",", compound("=", chain[0], y), compound(";", compound("->", compound("==", x, y), compound("=", ident, atom("true"))), compound("=", ident, atom("false"))))
+		goal = compound(",", compound("=", chain[n], x), goal)
+		for k := n - 1; k >= 0; k-- {
+			goal = compound(",", compound("=", chain[k], chain[k+1]), goal)
+		}
 	case "m":
 		// X1 = Y1, ..., Xn = Yn one after the other; identity observed by the built-in compare/3 (the
 		// goal after it only receives O and Ident)
